@@ -246,7 +246,9 @@ func (h *vhandler) OnOpen(c Conn) (out []byte, action Action) {
 		out = f
 	}
 	if h.raceMode {
-		h.asyncWG.Add(1)
+		// two of them per connection: the concurrency-safe calls also race with each other
+		h.asyncWG.Add(2)
+		go h.hammer(vc)
 		go h.hammer(vc)
 	}
 	// asynchronous writers / wakers are user goroutines holding the Conn
